@@ -278,3 +278,105 @@ class ProjectLambda(_MomentBase):
                 ("plus_half_is_positive_part_of_the_difference", Implies(rng, pos == If(d > 0, d, 0))),
                 ("minus_half_is_negative_part_of_the_difference", Implies(rng, neg == If(-d > 0, -d, 0))),
                 ("projected_vector_is_non_negative", Implies(rng, And(pos >= 0, neg >= 0)))]
+
+
+class LoadDataPrologue(_MomentBase):
+    """UtilityParity.load_data up to (excluding) the U-matrix loop: wiring against the assumed pandas contracts (groupby(keys).size() counts the rows of every
+    key combination that occurs, rows with a null key are dropped; concat(keys=['+','-']) stacks two copies under the two signs).
+    Ensures (property C06): tags gets the event column; prob_event = counts by event / n; prob_group_event = counts by (event, group) / n;
+    the constraint index is the index of concat([prob_group_event, prob_group_event], keys=['+','-']) - exactly one '+' and one '-' entry for every
+    (event, group) pair that occurs; U starts as zeros over rows x index; default utilities are [0, 1] per row."""
+    function = "UtilityParity.load_data"
+
+    def __init__(self, utilities_given):
+        self.ug = utilities_given
+        self.variant = "[utilities given]" if utilities_given else "[default utilities]"
+
+    def body(self, fn):
+        for idx, s in enumerate(fn.body):
+            if isinstance(s, ast.For) and "prob_group_event.index" in ast.unparse(s.iter):
+                return fn.body[:idx]
+        raise Unsupported("U-matrix loop not found")
+
+    def params(self, eng, st):
+        self.a = {k: Abstract("arg", name=k) for k in ("X", "y", "sensitive_features", "event")}
+        st.env.update(self.a)
+        self.util = Nd("utilities_arg", (n, 2), "ndarray", "ERASED", cell=lambda i, j: Function("util_arg", IntSort(), IntSort(), RealSort())(i, j)) if self.ug else None
+        st.env["utilities"] = self.util
+        self.tags_obj = Abstract("tags_frame", cols={})
+        st.env["self"] = Obj("UtilityParity", {"tags": self.tags_obj, "total_samples": n, "index": Abstract("index_property")})
+
+    def on_call(self, eng, st, node, name, recv, args, kwargs):
+        if name == "super":
+            return Abstract("super")
+        if name == "load_data" and isinstance(recv, Abstract) and recv.tag == "super":
+            st.ghost["base"] = (list(args), dict(kwargs))
+            return None
+        if name in ("numpy.zeros", "numpy.ones") and args and isinstance(args[0], Abstract) and args[0].tag == "shape_of_y":
+            v = 0 if name.endswith("zeros") else 1
+            return Nd(name, (n,), "ndarray", "ERASED", cell=lambda i, v=v: RealVal(v))
+        if name == "numpy.vstack":
+            parts = list(args[0].items)
+            if len(parts) == 2 and all(is_nd(p) and p.cell for p in parts):
+                return Nd("vstack", (2, n), "ndarray", "ERASED", cell=lambda r, i: If(r == 0, parts[0].cell(i), parts[1].cell(i)))
+            raise Unsupported("vstack")
+        if name == "groupby" and recv is self.tags_obj:
+            keys = args[0].items if hasattr(args[0], "items") else [args[0]]
+            return Abstract("grouped", keys=list(keys))
+        if name == "size" and isinstance(recv, Abstract) and recv.tag == "grouped":
+            return Abstract("counts", keys=recv.keys, div=None)
+        if name == "pandas.concat":
+            return Abstract("concat", parts=list(args[0].items), keys=list(kwargs["keys"].items) if "keys" in kwargs else None, names=list(kwargs["names"].items) if "names" in kwargs else None)
+        if name == "pandas.DataFrame" and args and args[0] == 0:
+            return Abstract("zeros_frame", index=kwargs.get("index"), columns=kwargs.get("columns"))
+        return super().on_call(eng, st, node, name, recv, args, kwargs)
+
+    def on_attr(self, eng, st, node, base, attr):
+        if base is self.a["y"] and attr == "shape":
+            return Abstract("shape_of_y")
+        if isinstance(base, Abstract) and base.tag == "concat" and attr == "index":
+            return Abstract("signed_index", of=base)
+        if base is self.tags_obj and attr == "index":
+            return Abstract("row_index")
+        if is_nd(base) and attr == "T" and len(base.shape) == 2 and base.cell:
+            c = base.cell
+            return Nd(base.name + ".T", (base.shape[1], base.shape[0]), "ndarray", "ERASED", cell=lambda i, j: c(j, i))
+        return super().on_attr(eng, st, node, base, attr)
+
+    def on_binop(self, eng, st, node, op, a, b):
+        if op == "Div" and isinstance(a, Abstract) and a.tag == "counts":
+            return Abstract("counts", keys=a.keys, div=b)
+        return super().on_binop(eng, st, node, op, a, b)
+
+    def on_store_subscript(self, eng, st, node, base, index, value):
+        if base is self.tags_obj and isinstance(index, str):
+            st.ghost.setdefault("tag_cols", {})[index] = value
+            return True
+        return super().on_store_subscript(eng, st, node, base, index, value)
+
+    def post(self, eng, st, status, value):
+        f = st.env["self"].fields
+        base = st.ghost.get("base")
+        out = [("base_class_loads_X_y_and_the_sensitive_features", BoolVal(base is not None and base[0] == [self.a["X"], self.a["y"]] and base[1].get("sensitive_features") is self.a["sensitive_features"])),
+               ("tags_get_the_event_column", BoolVal(st.ghost.get("tag_cols", {}).get("event") is self.a["event"]))]
+        pe, peg = f.get("prob_event"), f.get("prob_group_event")
+        isn = lambda v: is_z3(v) and v.eq(n)
+        out += [("prob_event_is_count_by_event_over_n", BoolVal(isinstance(pe, Abstract) and pe.tag == "counts" and pe.keys == ["event"] and isn(pe.div))),
+                ("prob_group_event_is_count_by_event_and_group_over_n", BoolVal(isinstance(peg, Abstract) and peg.tag == "counts" and peg.keys == ["event", "group_id"] and isn(peg.div)))]
+        ix = f.get("_index")
+        ok = isinstance(ix, Abstract) and ix.tag == "signed_index" and ix.of.keys == ["+", "-"] and len(ix.of.parts) == 2 and all(p is peg for p in ix.of.parts)
+        out.append(("index_has_one_plus_and_one_minus_entry_per_event_group_pair", BoolVal(bool(ok))))
+        U = f.get("U")
+        out.append(("U_starts_as_zeros_over_rows_and_constraints", BoolVal(isinstance(U, Abstract) and U.tag == "zeros_frame" and isinstance(U.index, Abstract) and U.index.tag == "row_index"
+                                                                          and U.columns is f.get("index"))))
+        ut, ud = f.get("utilities"), f.get("utility_diff")
+        rng = in_range((n,), (GI,))
+        if self.ug:
+            out.append(("given_utilities_are_used", BoolVal(ut is self.util)))
+        else:
+            out.append(("default_utilities_are_zero_and_one", Implies(rng, And(to_real(ut.cell(GI, IntVal(0))) == 0, to_real(ut.cell(GI, IntVal(1))) == 1)) if is_nd(ut) and ut.cell else BoolVal(False)))
+        if is_nd(ut) and ut.cell and is_nd(ud) and ud.cell:
+            out.append(("utility_diff_is_column_one_minus_column_zero", Implies(rng, to_real(ud.cell(GI)) == to_real(ut.cell(GI, IntVal(1))) - to_real(ut.cell(GI, IntVal(0))))))
+        else:
+            out.append(("utility_diff_is_column_one_minus_column_zero", BoolVal(False)))
+        return out
